@@ -49,7 +49,7 @@ def type_pool(tier):
                T.Opaque("weird", A, [T.SequenceArg([T.TypeTypeArg(a), T.StringArg("s"), T.SequenceArg([T.TypeTypeArg(a)])]), T.BoundedNatArg(1)], "no.such.ext")]
     step = 3 if tier == "quick" else 1
     l2 = []
-    for a in l1[::step]:
+    for a in [x for x in l1 if not isinstance(x, T.PolyFuncType)][::step]:      # a type scheme is not nestable inside other types
         l2 += [arr(a), T.Tuple(a), T.FunctionType([a], [a]), lst(arr(a))]
     return atoms + l1 + l2
 
